@@ -436,7 +436,7 @@ def circle_selection(repo, rep):
                    and x[2][2][0] == "call" and x[2][2][1] == "Coordinates.angular_separation"}, key=T.key)
     top = t[1] if t[0] == "angle" else t
     if len(seps) != 3 or top[0] != "phi" or top[1][0] != "cmp" or top[1][1] not in ("GtE", "Gt"):
-        rep.violation("R-ORDERINGS", site, "shape", "result is not `a if a >= sqrt(b^2 + c^2) else circumscribed diameter` over the three mutual separations")
+        rep.inconcl("R-ORDERINGS", site, "result is not recognised as `a if a >= sqrt(b^2 + c^2) else circumscribed diameter` over the three mutual separations")
         return
     A = top[1][2]
     rhs = top[1][3]
@@ -446,7 +446,7 @@ def circle_selection(repo, rep):
         if x[0] == "pow" and x[2] == T.num(2):
             BC.append(x[1])
     if len(BC) != 2 or top[2] != A:
-        rep.violation("R-ORDERINGS", site, "shape", "obtuse-triangle test is not a >= sqrt(b*b + c*c) returning a")
+        rep.inconcl("R-ORDERINGS", site, "obtuse-triangle test is not recognised as a >= sqrt(b*b + c*c) returning a")
         return
     import itertools
     bad = []
